@@ -96,6 +96,18 @@ def shapes(tier, seed):
         for n in (0, 1, 3):
             add(node, p, {"X": n}, decl="loose")
             add(node, p, {"X": n})
+    # operations applied with the source engine preferred (backtracking across an iteration-to-iteration transfer)
+    T2 = ("xfer", X, "it2")
+    back = ("it1", True, False, False)
+    Aa, Bb = ("ref", "a"), ("ref", "b")
+    for mid in (("sort", T2, ((Aa, True),)), ("sort", ("calc", T2, "d", ("add", Aa, Bb)), ((Bb, False), (Aa, True))), ("sel", T2, ("gt", Aa, ("lit", "$k0"))),
+                ("dedup", ("proj", T2, ("a", "b")))):
+        for fin in (("slice", mid, 0, 2, back), ("slice", mid, 1, 2, back), ("sort", mid, ((Aa, False),), back), ("sort", mid, ((Bb, True), (Aa, False)), back),
+                    ("sel", mid, ("lt", Aa, Bb), back)):
+            p = templates.P()
+            if "$k0" in repr(fin):
+                p.params["$k0"] = [None, None]
+            add(fin, p, {"X": 3}, tag="backtrack")
     # selection by membership in an integer range: a box of (start, stop, step) including descending, empty and unaligned ranges
     vals = (-4, -1, 0, 1, 2, 5, 6) if tier == "quick" else tuple(range(-6, 8))
     steps = (1, 2, 3, 4, -1, -2, -3, -4) if tier == "quick" else tuple(s for s in range(-5, 6) if s)
